@@ -280,6 +280,9 @@ def decide(outcome, prop, results, scope=None, tol0=1e-9):
                 else:
                     continue
             obligations += 1
+            key_ = {'engine': 'E-S', 'job': res['name'], 'relation': r['name']}
+            if not r['proved'] and finding_for(prop, key_) is not None and r.get('native_worst') and r['native_worst']['dev'] > tol:
+                obligations -= 1   # a recorded finding is reported (KNOWN-FINDING) but is not an obligation of the claim
             if r['proved']:
                 discharged += 1
                 if r['identical_nodes']:
